@@ -223,25 +223,316 @@ theorem confirm_reject_unchanged (recover : List Nat → List Nat → Option Str
     (h : confirmStep recover st m = .error e) : step recover st (.confirm m) = st := by
   simp [step, h]
 
-/-- after ANY sequence of object stores, registry writes and confirm messages: at most one stored confirmation per
-(object, oracle) -/
+/-- after ANY sequence of object stores, registry writes, confirm messages and prunings: at most one stored
+confirmation per (object, oracle) -/
 theorem one_confirm_per_oracle (recover : List Nat → List Nat → Option String) (ops : List Op) :
     ((run recover {} ops).confirms.map Entry.slot).Nodup :=
-  (inv_run recover {} ops (inv_init recover)).2
+  (inv_run recover {} ops (inv_init recover)).2.1
 
-/-- after ANY sequence: every stored confirmation carries a signature that recovers, over the checkpoint of the object
-still stored under its key, to the external address registered for its oracle when it was accepted -/
+/-- after ANY sequence (including prunings): every stored confirmation carries a signature that recovers, over the
+checkpoint of the object that was stored under the very key the confirmation is filed under (`ever` records every object
+ever stored; keys are never reused), to the external address registered for its oracle when it was accepted; and while
+that object has not been deleted it is still the object stored under that key -/
 theorem stored_confirm_verified (recover : List Nat → List Nat → Option String) (ops : List Op) (e : Entry)
     (he : e ∈ (run recover {} ops).confirms) :
+    (run recover {} ops).ever.lookup e.key = some e.digest ∧
+    (e.key ∉ (run recover {} ops).removed → (run recover {} ops).objects.lookup e.key = some e.digest) ∧
+    recover e.digest e.sig = some e.external ∧ e.recAt.external = e.external := by
+  obtain ⟨h1, _, _, h4⟩ := inv_run recover {} ops (inv_init recover)
+  obtain ⟨a, b, _, d⟩ := h1 e he
+  exact ⟨d, fun hr => h4 _ _ d hr, a, b⟩
+
+/-- the round-1 statement, verbatim, for sequences without prunings: the object is still stored under the key -/
+theorem stored_confirm_verified_no_removal (recover : List Nat → List Nat → Option String) (ops : List Op)
+    (hno : ∀ op ∈ ops, op.isRemove = false) (e : Entry) (he : e ∈ (run recover {} ops).confirms) :
     (run recover {} ops).objects.lookup e.key = some e.digest ∧ recover e.digest e.sig = some e.external ∧
     e.recAt.external = e.external := by
-  obtain ⟨h1, h2, _, h4⟩ := (inv_run recover {} ops (inv_init recover)).1 e he
-  exact ⟨h4, h1, h2⟩
+  obtain ⟨_, h2, h3, h4⟩ := stored_confirm_verified recover ops e he
+  refine ⟨h2 ?_, h3, h4⟩
+  rw [removed_run recover {} ops hno]
+  simp
+
+/-- a stored object is only ever the object that was stored under its key first -/
+theorem stored_object_never_replaced (recover : List Nat → List Nat → Option String) (ops : List Op) (k : ObjKey) (d : List Nat)
+    (h : (run recover {} ops).objects.lookup k = some d) : (run recover {} ops).ever.lookup k = some d :=
+  (inv_run recover {} ops (inv_init recover)).2.2.1 k d h
 
 /-- … and was submitted under the bridger address of that oracle's record -/
 theorem confirm_requires_bridger (recover : List Nat → List Nat → Option String) (ops : List Op) (e : Entry)
     (he : e ∈ (run recover {} ops).confirms) : e.recAt.bridger = e.bridger :=
   ((inv_run recover {} ops (inv_init recover)).1 e he).2.2.1
+
+/-- a pruning site that deletes the confirmations of a key leaves none filed under it (whatever the state) -/
+theorem pruned_confirms_gone (recover : List Nat → List Nat → Option String) (st : HState) (k : ObjKey) (dobj : Bool) :
+    ∀ e ∈ (step recover st (.removeObject k dobj true)).confirms, e.key ≠ k :=
+  removeObject_drops st k dobj
+
+/-! ## 5. the handler as the SOURCE spells it (regenerated key plan) is the specified handler -/
+
+/-- for each of the three handlers, read off the Go AST through the callees down to the `types.Get…Key` calls: ONE object
+lookup, by the exact key the object store writes (all coordinates the message names: token contract and nonce for a batch,
+nonce otherwise); the checkpoint computed over that object under `k.GetGravityID(ctx)`; ValidateConfirmSign given the
+message's bridger, external address, signature and that checkpoint; the duplicate check and the store through one key
+function over the same coordinates plus the oracle address ValidateConfirmSign returned; in this order -/
+theorem handler_plans_exact :
+    handlerPlans.map (·.kind) = ["batch", "oracleSet", "bridgeCall"] ∧ handlerPlans.all planExact = true := by decide
+
+/-- every key function reached by the plans mentions all of its parameters (no coordinate is dropped inside) -/
+theorem key_functions_use_all_parameters : keyFnUses.all (fun x => x.2.1 == x.2.2 && !x.2.1.isEmpty) = true := by decide
+
+/-- the handler driven by the regenerated plan = `confirmStep`, for every registry, object store, message, `recover` -/
+theorem generated_handler_is_specified (recover : List Nat → List Nat → Option String) (st : HState) (m : ConfirmMsg) :
+    confirmStepG recover st m = confirmStep recover st m :=
+  confirmStepP_eq_confirmStep _ recover st m (planFor_exact m.key handler_plans_exact.1 handler_plans_exact.2)
+    (planFor_kind m.key handler_plans_exact.1)
+
+/-- so everything proved about `run` holds of what the driver executes against the real handlers -/
+theorem driver_run_is_specified_run (recover : List Nat → List Nat → Option String) (st : HState) (ops : List Op) :
+    runG recover st ops = run recover st ops :=
+  runG_eq_run handler_plans_exact.1 handler_plans_exact.2 recover st ops
+
+/-- a handler whose plan is exact files an accepted confirmation under the key of the very object whose checkpoint was
+verified: (for ANY plan) if the plan-driven handler accepts, the new entry's digest is the digest of an object found by
+one of the plan's lookups; for the exact plan that object's key is the entry's key -/
+theorem accepted_confirm_filed_under_verified_object (recover : List Nat → List Nat → Option String) (st st' : HState)
+    (m : ConfirmMsg) (h : confirmStepG recover st m = .ok st') :
+    ∃ e, st'.confirms = e :: st.confirms ∧ e.key = m.key ∧ st.objects.lookup e.key = some e.digest := by
+  rw [generated_handler_is_specified] at h
+  obtain ⟨digest, sig, oracle, r, ho, _, _, _, _, _, _, _, rfl⟩ := (confirm_accept_iff recover st st' m).1 h
+  exact ⟨_, rfl, rfl, ho⟩
+
+/-- which pruning site deletes what (from the `k.Delete…` calls in the source): executing a batch, pruning an oracle
+set and deleting a bridge-call record delete the object together with its confirmations; cancelling a batch deletes the
+object only (its confirmations stay behind, filed under a key that is never used again) -/
+theorem delete_sites_as_modelled :
+    removeFlags "OutgoingTxBatchExecuted" = (true, true) ∧ removeFlags "CancelOutgoingTxBatch" = (true, false) ∧
+    removeFlags "pruneOracleSet" = (true, true) ∧ removeFlags "DeleteOutgoingBridgeCallRecord" = (true, true) := by decide
+
+/-- the two signature decoders: reject below 65 bytes, map a recovery byte 27/28 to 0/1, hash their own prefix constant
+in front of the checkpoint, and compare the recovered address text with the registered one -/
+theorem sig_rules_as_modelled : sigRules = [
+    ⟨"EthAddressFromSignature", "65", ["27", "28"], "27", "signaturePrefix", "addr != ethAddress", 65, [27, 28], 27⟩,
+    ⟨"TronAddressFromSignature", "65", ["27", "28"], "27", "tronSignaturePrefix", "addr != ethAddress", 65, [27, 28], 27⟩] := by decide
+
+/-- "submitted by that oracle's bridger", transaction level: the account that must have signed a transaction carrying a
+confirm message is the message's `bridger_address` (proto signer option, enforced by the SDK ante handler), and the
+handler accepts only if that `bridger_address` is the bridger of the oracle record (`confirm_accept_iff`: `r.bridger =
+m.bridger`) -/
+theorem confirm_signer_is_bridger_field :
+    confirmSigners = [("MsgOracleSetConfirm", "bridger_address"), ("MsgConfirmBatch", "bridger_address"),
+      ("MsgBridgeCallConfirm", "bridger_address"), ("MsgConfirm", "bridger_address")] := by decide
+
+/-- the `MsgConfirm` wrapper (signer = the WRAPPER's bridger_address, inner bridger never compared: `wrapperGuards`) is
+not deliverable as a transaction in this snapshot — it has no `UnpackInterfaces`, so `MsgServer.Confirm` finds no cached
+value and rejects.  If either fact changes this obligation stops checking and the harness's transaction stream shows
+whether a stranger's transaction can now store a confirmation. -/
+theorem msgconfirm_wrapper_latent : msgConfirmUnpacks = false ∧ wrapperGuards = ["if !ok"] := by decide
+
+/-! ## 5a. the bytes of the store keys (layout regenerated from the nested `append`s of the key functions) -/
+
+/-- the confirm-store key of a batch confirmation is `0x22 ++ token text ++ be8(nonce) ++ oracle address`; of an oracle-set
+/ bridge-call confirmation `prefix ++ be8(nonce) ++ oracle address`; the object keys `prefix ++ [token text ++] be8(nonce)`;
+the six prefixes are pairwise different single bytes (the stores do not overlap) -/
+theorem key_layouts :
+    keyParts.lookup "GetBatchConfirmKey" = some [("const", "BatchConfirmKey"), ("text", "tokenContract"), ("be8", "batchNonce"), ("addr", "oracleAddr")] ∧
+    keyParts.lookup "GetOracleSetConfirmKey" = some [("const", "OracleSetConfirmKey"), ("be8", "nonce"), ("addr", "oracleAddr")] ∧
+    keyParts.lookup "GetBridgeCallConfirmKey" = some [("const", "BridgeCallConfirmKey"), ("be8", "nonce"), ("addr", "addr")] ∧
+    keyParts.lookup "GetOutgoingTxBatchKey" = some [("const", "OutgoingTxBatchKey"), ("text", "tokenContract"), ("be8", "batchNonce")] ∧
+    keyParts.lookup "GetOracleSetKey" = some [("const", "OracleSetRequestKey"), ("be8", "nonce")] ∧
+    keyParts.lookup "GetOutgoingBridgeCallNonceKey" = some [("const", "OutgoingBridgeCallNonceKey"), ("be8", "id")] ∧
+    (keyPrefixes.map (·.2)).Nodup ∧ keyPrefixes.all (fun p => p.2.length == 1) = true := by decide
+
+/-- the store key of a confirmation determines what it is filed under: two batch-confirm keys (token contract texts of
+one length, as on any one chain) are equal only for the same token contract, nonce and oracle -/
+theorem batch_confirm_key_injective (e1 e2 : KeyEnv) (hl : e1.token.length = e2.token.length)
+    (h1 : e1.nonce < 2 ^ 64) (h2 : e2.nonce < 2 ^ 64)
+    (h : encKey "GetBatchConfirmKey" e1 = encKey "GetBatchConfirmKey" e2) : e1 = e2 := by
+  have hp := key_layouts.1
+  simp only [encKey, hp, Option.getD_some, List.flatMap_cons, List.flatMap_nil, List.append_nil] at h
+  have e : ∀ env : KeyEnv, encPart env ("const", "BatchConfirmKey") = [34] ∧ encPart env ("text", "tokenContract") = env.token ∧
+      encPart env ("be8", "batchNonce") = toBE 8 env.nonce ∧ encPart env ("addr", "oracleAddr") = env.oracle := by
+    intro env; refine ⟨by simp only [encPart, beq_self_eq_true, if_true]; decide, ?_, ?_, ?_⟩ <;> simp [encPart]
+  rw [(e e1).1, (e e1).2.1, (e e1).2.2.1, (e e1).2.2.2, (e e2).1, (e e2).2.1, (e e2).2.2.1, (e e2).2.2.2] at h
+  obtain ⟨a, b, c⟩ := key_layout_inj [34] _ _ _ _ _ _ hl h1 h2 h
+  cases e1; cases e2; simp_all
+
+/-- … and the keys without a token component (oracle-set and bridge-call confirmations) only for the same nonce and oracle -/
+theorem nonce_confirm_key_injective (fn : String) (hfn : fn = "GetOracleSetConfirmKey" ∨ fn = "GetBridgeCallConfirmKey")
+    (e1 e2 : KeyEnv) (h1 : e1.nonce < 2 ^ 64) (h2 : e2.nonce < 2 ^ 64)
+    (h : encKey fn e1 = encKey fn e2) : e1.nonce = e2.nonce ∧ e1.oracle = e2.oracle := by
+  rcases hfn with rfl | rfl
+  · have hp := key_layouts.2.1
+    simp only [encKey, hp, Option.getD_some, List.flatMap_cons, List.flatMap_nil, List.append_nil] at h
+    have e : ∀ env : KeyEnv, encPart env ("const", "OracleSetConfirmKey") = [22] ∧
+        encPart env ("be8", "nonce") = toBE 8 env.nonce ∧ encPart env ("addr", "oracleAddr") = env.oracle := by
+      intro env; refine ⟨by simp only [encPart, beq_self_eq_true, if_true]; decide, ?_, ?_⟩ <;> simp [encPart]
+    rw [(e e1).1, (e e1).2.1, (e e1).2.2, (e e2).1, (e e2).2.1, (e e2).2.2] at h
+    obtain ⟨_, b, c⟩ := key_layout_inj [22] [] [] _ _ _ _ rfl h1 h2 (by simpa using h)
+    exact ⟨b, c⟩
+  · have hp := key_layouts.2.2.1
+    simp only [encKey, hp, Option.getD_some, List.flatMap_cons, List.flatMap_nil, List.append_nil] at h
+    have e : ∀ env : KeyEnv, encPart env ("const", "BridgeCallConfirmKey") = [69] ∧
+        encPart env ("be8", "nonce") = toBE 8 env.nonce ∧ encPart env ("addr", "addr") = env.oracle := by
+      intro env; refine ⟨by simp only [encPart, beq_self_eq_true, if_true]; decide, ?_, ?_⟩ <;> simp [encPart]
+    rw [(e e1).1, (e e1).2.1, (e e1).2.2, (e e2).1, (e e2).2.1, (e e2).2.2] at h
+    obtain ⟨_, b, c⟩ := key_layout_inj [69] [] [] _ _ _ _ rfl h1 h2 (by simpa using h)
+    exact ⟨b, c⟩
+
+/-- the object-store key of a batch determines token contract and nonce: a lookup by `(token, nonce)` can only return
+the batch stored under exactly that pair -/
+theorem batch_object_key_injective (e1 e2 : KeyEnv) (hl : e1.token.length = e2.token.length)
+    (h1 : e1.nonce < 2 ^ 64) (h2 : e2.nonce < 2 ^ 64)
+    (h : encKey "GetOutgoingTxBatchKey" e1 = encKey "GetOutgoingTxBatchKey" e2) : e1.token = e2.token ∧ e1.nonce = e2.nonce := by
+  have hp := key_layouts.2.2.2.1
+  simp only [encKey, hp, Option.getD_some, List.flatMap_cons, List.flatMap_nil, List.append_nil] at h
+  have e : ∀ env : KeyEnv, encPart env ("const", "OutgoingTxBatchKey") = [32] ∧ encPart env ("text", "tokenContract") = env.token ∧
+      encPart env ("be8", "batchNonce") = toBE 8 env.nonce := by
+    intro env; refine ⟨by simp only [encPart, beq_self_eq_true, if_true]; decide, ?_, ?_⟩ <;> simp [encPart]
+  rw [(e e1).1, (e e1).2.1, (e e1).2.2, (e e2).1, (e e2).2.1, (e e2).2.2] at h
+  obtain ⟨a, b, _⟩ := key_layout_inj [32] _ _ [] [] _ _ hl h1 h2 (by simpa using h)
+  exact ⟨a, b⟩
+
+/-! ## 5b. signature decoding with the constants of the source (curve recovery `ec` and hash `H` opaque) -/
+
+/-- a signature either decoder accepts has at least 65 bytes — whatever the curve recovery does -/
+theorem accepted_signature_at_least_65_bytes (r : SigRule) (hr : r ∈ sigRules) (H : List Nat → List Nat)
+    (ec : List Nat → List Nat → Option String) (digest sig : List Nat) (a : String)
+    (h : recoverVia r H ec digest sig = some a) : 65 ≤ sig.length := by
+  simp only [sigRules, List.mem_cons, List.mem_nil_iff, or_false] at hr
+  rcases hr with rfl | rfl <;>
+  · simp only [recoverVia, decodeSig] at h
+    split at h
+    · cases h
+    · rename_i s' hs
+      split at hs
+      · cases hs
+      · omega
+
+/-- the recovery byte 27 / 28 (the contract's convention) is reduced to 0 / 1 before the curve recovery sees it, every
+other byte of the signature is untouched, and any other recovery byte is passed on as it is -/
+theorem recovery_byte_normalised (r : SigRule) (hr : r ∈ sigRules) (sig : List Nat) (hl : 65 ≤ sig.length) :
+    decodeSig r sig = some (if sig.getD 64 0 = 27 ∨ sig.getD 64 0 = 28 then sig.set 64 (sig.getD 64 0 - 27) else sig) := by
+  simp only [sigRules, List.mem_cons, List.mem_nil_iff, or_false] at hr
+  rcases hr with rfl | rfl <;>
+  · simp only [decodeSig, show ¬ sig.length < 65 from by omega, if_false]
+    simp
+
+/-- the two decoders differ in nothing but the prefix constant they hash in front of the checkpoint, and the prefixes
+differ: an eth-style signature over a checkpoint is a signature over another message than the tron one -/
+theorem decoders_differ_only_in_prefix :
+    sigRules.map (fun r => (r.minLenN, r.vNormN, r.vSubN, r.cmp)) = [(65, [27, 28], 27, "addr != ethAddress"), (65, [27, 28], 27, "addr != ethAddress")] ∧
+    sigRules.map prefixOf = [goSignPrefix, tronSignPrefix] ∧ goSignPrefix ≠ tronSignPrefix := by decide
+
+/-- so, in every reachable state of a chain whose handler recovers through either decoder: every STORED confirmation's
+signature has at least 65 bytes -/
+theorem stored_confirm_signature_length (r : SigRule) (hr : r ∈ sigRules) (H : List Nat → List Nat)
+    (ec : List Nat → List Nat → Option String) (ops : List Op) (e : Entry)
+    (he : e ∈ (run (recoverVia r H ec) {} ops).confirms) : 65 ≤ e.sig.length :=
+  accepted_signature_at_least_65_bytes r hr H ec e.digest e.sig e.external (stored_confirm_verified _ ops e he).2.2.1
+
+/-! ## 6. end to end: a stored confirmation is a signature over the digest the contract recomputes for the object it
+names, and over no other object, nonce or chain id -/
+
+def AnyObj.Int64Safe : AnyObj → Prop
+  | .oset o => o.Int64Safe | .batch b => b.Int64Safe | .bcall c => c.Int64Safe
+
+/-- the store key of an object is built from the object's own fields (`objectKeys`, regenerated): its nonce, and for a
+batch its token contract text `tok` (the text of `b.token`) -/
+def keyOf (tok : String) : AnyObj → ObjKey
+  | .oset o => .oracleSet o.nonce
+  | .batch b => .batch tok b.nonce
+  | .bcall c => .bridgeCall c.nonce
+
+theorem object_keys_from_object_fields :
+    objectKeys.map (fun x => (x.1, x.2.slots)) = [
+      ("batch", [("token", "obj.TokenContract"), ("nonce", "obj.BatchNonce")]),
+      ("oracleSet", [("nonce", "obj.Nonce")]), ("bridgeCall", [("nonce", "obj.Nonce")])] := by decide
+
+/-- the checkpoint fxcore computes for an object under gravity id `g` (`H` = Keccak-256, opaque) -/
+def digestOf (H : List Nat → List Nat) (g : Nat) (a : AnyObj) : List Nat := H ((goPre a g).getD [])
+/-- the digest the bridge contract recomputes -/
+def contractDigest (H : List Nat → List Nat) (g : Nat) (a : AnyObj) : List Nat := H ((solPre a g).getD [])
+
+/-- ops of one chain: object stores carry the object itself; everything else as in `Op` -/
+inductive TOp where
+  | store (tok : String) (a : AnyObj)
+  | other (op : Op)
+
+def TOp.toOp (H : List Nat → List Nat) (g : Nat) : TOp → Op
+  | .store tok a => .addObject (keyOf tok a) (digestOf H g a)
+  | .other op => op
+
+/-- `other` is not used to smuggle in an object store -/
+def TOp.ok : TOp → Bool
+  | .other (.addObject _ _) => false
+  | _ => true
+
+/-- for an int64-safe object the digest fxcore verifies against IS the digest the contract recomputes -/
+theorem digest_eq_contract_digest (H : List Nat → List Nat) (g : Nat) (a : AnyObj) (h : a.Int64Safe) :
+    digestOf H g a = contractDigest H g a := by
+  unfold digestOf contractDigest
+  cases a with
+  | oset o => simp only [goPre, solPre, AnyObj.kind, AnyObj.toObj]; rw [(checkpoint_bytes_equal_oracleSet o g h).1]
+  | batch b => simp only [goPre, solPre, AnyObj.kind, AnyObj.toObj]; rw [(checkpoint_bytes_equal_batch b g h).1]
+  | bcall c => simp only [goPre, solPre, AnyObj.kind, AnyObj.toObj]; rw [(checkpoint_bytes_equal_bridgeCall c g h).1]
+
+/-- tron chains hash the same bytes as eth-style chains for the same object and gravity id (they differ in the signed-message
+prefix only, `decoders_differ_only_in_prefix`), so `digestOf` is also the checkpoint of a tron chain -/
+theorem tron_preimage_eq_go_preimage (a : AnyObj) (g : Nat) : tronPre a g = goPre a g := tronPre_eq a g
+
+/-- END TO END.  After ANY sequence of typed object stores, registry writes, confirms and prunings on a chain with
+gravity id `g`: every stored confirmation `e` is filed under the key of an object `a` that was stored (same kind, same
+nonce, same token contract), its signature recovers to the oracle's registered external address over fxcore's
+checkpoint of exactly that object, and — when `a`'s counters fit an int64 — that checkpoint is the digest the bridge
+contract recomputes for `a` under `g`: the confirmation is usable there. -/
+theorem stored_confirm_usable_on_contract (recover : List Nat → List Nat → Option String) (H : List Nat → List Nat) (g : Nat)
+    (tops : List TOp) (hok : ∀ t ∈ tops, t.ok = true) (e : Entry)
+    (he : e ∈ (run recover {} (tops.map (TOp.toOp H g))).confirms) :
+    ∃ tok a, TOp.store tok a ∈ tops ∧ e.key = keyOf tok a ∧ e.digest = digestOf H g a ∧
+      recover (digestOf H g a) e.sig = some e.external ∧ e.recAt.external = e.external ∧ e.recAt.bridger = e.bridger ∧
+      (a.Int64Safe → recover (contractDigest H g a) e.sig = some e.external) := by
+  obtain ⟨hev, _, hrec, hx⟩ := stored_confirm_verified recover _ e he
+  have hb := confirm_requires_bridger recover _ e he
+  have hmem := mem_of_lookup _ _ _ hev
+  rcases ever_from_ops recover {} _ e.key e.digest hmem with h0 | hadd
+  · simp at h0
+  · simp only [List.mem_map] at hadd
+    obtain ⟨t, ht, hto⟩ := hadd
+    cases t with
+    | other op =>
+      have := hok _ ht
+      simp only [TOp.toOp] at hto
+      subst hto
+      simp [TOp.ok] at this
+    | store tok a =>
+      simp only [TOp.toOp, Op.addObject.injEq] at hto
+      obtain ⟨hk, hd⟩ := hto
+      refine ⟨tok, a, ht, hk.symm, hd.symm, ?_, hx, hb, ?_⟩
+      · rw [hd]; exact hrec
+      · intro hs; rw [← digest_eq_contract_digest H g a hs, hd]; exact hrec
+
+/-- … and over nothing else.  Under Keccak collision resistance: if the contract of ANY chain (gravity id `g2`) recomputes,
+for ANY well-formed object `b`, the digest a stored confirmation was verified against, then `b` is the object the
+confirmation names and `g2` is this chain's gravity id — same kind, same nonce, every field.  A stored signature is never
+valid for another chain id, object or nonce. -/
+theorem stored_confirm_valid_for_nothing_else (recover : List Nat → List Nat → Option String) (H : List Nat → List Nat)
+    (hH : CollisionResistant H) (g : Nat) (hg : g < 2 ^ 256)
+    (tops : List TOp) (hok : ∀ t ∈ tops, t.ok = true)
+    (hwf : ∀ tok a, TOp.store tok a ∈ tops → a.WF ∧ a.Int64Safe) (e : Entry)
+    (he : e ∈ (run recover {} (tops.map (TOp.toOp H g))).confirms)
+    (b : AnyObj) (g2 : Nat) (wb : b.WF) (hg2 : g2 < 2 ^ 256) (hcol : contractDigest H g2 b = e.digest) :
+    ∃ tok, TOp.store tok b ∈ tops ∧ e.key = keyOf tok b ∧ g2 = g := by
+  obtain ⟨tok, a, hin, hk, hd, _, _, _, _⟩ := stored_confirm_usable_on_contract recover H g tops hok e he
+  obtain ⟨wa, sa⟩ := hwf tok a hin
+  rw [hd, digest_eq_contract_digest H g a sa] at hcol
+  have h2 : (solPre b g2).map H = (solPre a g).map H := by
+    unfold contractDigest at hcol
+    rw [solPre_eq] at hcol ⊢
+    rw [solPre_eq] at hcol ⊢
+    simpa using hcol
+  obtain ⟨hba, hgg⟩ := signatures_never_transplant_contract H hH b a g2 g wb wa hg2 hg h2
+  subst hba
+  exact ⟨tok, hin, hk, hgg⟩
 
 /-! ## non-vacuity -/
 
@@ -268,5 +559,38 @@ example :
     errOf (confirmStep exRecover (run exRecover {} (exOps.take 3)) ⟨.oracleSet 7, "bridgerY", "0xExt", some [8]⟩) = some .badSig ∧
     errOf (confirmStep exRecover (run exRecover {} (exOps.take 3)) ⟨.oracleSet 7, "bridgerY", "0xExt", some [9]⟩) = none := by
   decide
+
+/-- pruning: after the oracle confirmed, a site that deletes object and confirmations leaves nothing under the key, a
+later confirm for the pruned object is `notFound`; a site that deletes only the object (batch cancel) keeps the entry -/
+example :
+    (run exRecover {} (exOps ++ [.removeObject (.oracleSet 7) true true])).confirms.length = 0 ∧
+    errOf (confirmStep exRecover (run exRecover {} (exOps ++ [.removeObject (.oracleSet 7) true true]))
+      ⟨.oracleSet 7, "bridgerY", "0xExt", some [9]⟩) = some .notFound ∧
+    (run exRecover {} (exOps ++ [.removeObject (.oracleSet 7) true false])).confirms.length = 1 ∧
+    (run exRecover {} (exOps ++ [.removeObject (.oracleSet 7) true false, .addObject (.oracleSet 7) [4]])).objects.length = 0 := by
+  decide
+
+/-- the plan-driven handler on a batch: the confirm naming (tokB, 7) while only (tokA, 7) is stored is `notFound`; a
+plan with a nonce-only fallback lookup (not the source's plan) would accept it and file it under (tokB, 7) -/
+private def exBatchSt : HState :=
+  run exRecover {} [.addObject (.batch "tokA" 7) [1, 2, 3], .setOracle 1 ⟨"bridgerY", "0xExt"⟩, .setIndex "0xExt" 1]
+
+private def loosePlan : Plan :=
+  { planFor (.batch "" 0) with lookups := (planFor (.batch "" 0)).lookups ++ [⟨"GetOutgoingTxBatchByNonce", "scan", [("nonce", "msg.Nonce")]⟩] }
+
+example :
+    errOf (confirmStepG exRecover exBatchSt ⟨.batch "tokB" 7, "bridgerY", "0xExt", some [9]⟩) = some .notFound ∧
+    errOf (confirmStepG exRecover exBatchSt ⟨.batch "tokA" 7, "bridgerY", "0xExt", some [9]⟩) = none ∧
+    planExact loosePlan = false ∧
+    (match confirmStepP loosePlan exRecover exBatchSt ⟨.batch "tokB" 7, "bridgerY", "0xExt", some [9]⟩ with
+      | .ok st' => st'.confirms.map (·.key) | .error _ => []) = [.batch "tokB" 7] := by
+  decide
+
+/-- the end-to-end theorems are not vacuous: a typed run in which a confirmation gets stored -/
+example : ∃ e, e ∈ (run (fun _ s => if s == [9] then some "0xExt" else none) {}
+    ([TOp.store "" (.oset ⟨7, []⟩), .other (.setOracle 1 ⟨"bridgerY", "0xExt"⟩), .other (.setIndex "0xExt" 1),
+      .other (.confirm ⟨.oracleSet 7, "bridgerY", "0xExt", some [9]⟩)].map (TOp.toOp id 5))).confirms := by
+  refine ⟨⟨.oracleSet 7, 1, "bridgerY", "0xExt", [9], digestOf id 5 (.oset ⟨7, []⟩), ⟨"bridgerY", "0xExt"⟩⟩, ?_⟩
+  simp [run, step, stepOther, TOp.toOp, keyOf, confirmStep, hasConfirm, upsert, List.lookup]
 
 end FxVerif.Props.C12
